@@ -20,6 +20,43 @@ PROPS = {
                             "thorough": "every day of 34 (mode, year-type) combinations x 3 representations x 8 unit steps"},
         "assumptions": TRUST,
     },
+    "C02": {
+        "technique": "TLA+ spec (Ops.tla CmpVector / Inst order) + TLC trace validation of comparison, hash, sort and set executions",
+        "level_text": "All six operators on every ordered pair of each pool, hash ids, sorted order, set size and transitivity of the real "
+                      "library are judged by TLC against the order of the instants on the integer timeline; pools are built so that many "
+                      "members are the same instant spelled differently (representation, offset, precision, 24:00) or 1 s apart across boundaries.",
+        "drivers": ["c02"], "mc": [], "expect_ops": ["Cmp", "Pool"],
+        "rule": "one case = one pool of 6-7 time points under one mode (36-49 ordered pairs + sort/set/hash); every pool is non-trivial "
+                "(it contains respelled and 1-second-shifted members by construction)",
+        "assumptions": TRUST,
+    },
+    "C04": {
+        "technique": "TLA+ spec (Ops.tla SubClause: signed distance on the timeline) + TLC trace validation of a-b and the three identities",
+        "level_text": "Every recorded difference is judged by TLC: exact, single-signed, fields in range, length = distance of the instants; "
+                      "(a-b)==-(b-a), b+(a-b)==a and (p+d)-p==d are recorded as library results and re-derived on the timeline.",
+        "drivers": ["c04"], "mc": [], "expect_ops": ["SubTP", "Ident", "RoundTrip"],
+        "rule": "one case = one ordered pair (a, b) (or one (p, d) round trip); non-trivial = different years, representations or offsets",
+        "assumptions": TRUST,
+    },
+    "C05": {
+        "technique": "TLA+ spec (Ops.tla MonthStep/AddMonthsTP/AddYearsTP/AddDurTP) + TLC trace validation of nominal additions",
+        "level_text": "The specification defines n months as n clamped single steps, year clamping per representation and the order "
+                      "exact->months->years; TLC requires every recorded result of the library to carry exactly the date fields, time of day, "
+                      "offset and representation the definition gives, from every month end / leap day / day 366 / week 53 of each year type.",
+        "drivers": ["c05"], "mc": [], "expect_ops": ["Add"],
+        "rule": "one case = one nominal (or mixed) addition; all cases start from month ends, leap days, last days of a year, week 53 or are random",
+        "assumptions": TRUST,
+    },
+    "C06": {
+        "technique": "TLA+ spec (Ops.tla ToZoneClause) + TLC trace validation of to_time_zone / to_utc / zone-bearing dump executions",
+        "level_text": "For every legal destination offset (-99:59..+99:59, both signs of zero-hour offsets) TLC checks that the re-expressed "
+                      "value denotes the same instant, carries exactly the requested offset, keeps the representation and has valid fields, and "
+                      "that ==, hash and difference recorded from the library agree.",
+        "drivers": ["c06"], "mc": [], "expect_ops": ["Zone"],
+        "rule": "one case = one re-expression; non-trivial = destination offset differs from the source offset",
+        "exhaustive_part": {"quick": "all 12 058 destination offsets once", "thorough": "all destination offsets x 4 rounds of boundary points"},
+        "assumptions": TRUST,
+    },
     "C03": {
         "technique": "TLA+ calendar definition (Cal.tla) model-checked with TLC (+ Apalache lemmas) and TLC trace validation of every conversion row of the real helpers",
         "level_text": "Cal.tla is the proleptic definition; TLC checks it is self-consistent (inverse pairs, week rule, lengths) on every day "
